@@ -571,8 +571,10 @@ class GroupBy:
                 had_pointers=self._group_key_pointers is not None,
             )
         if self._group_key_pointers is not None:
+            # the appended -1 is what a null key (local code -1) maps to
             chunks = [
-                p[k] for p, k in zip(self._group_key_pointers, self._group_ikey.chunks)
+                np.append(p, -1)[k]
+                for p, k in zip(self._group_key_pointers, self._group_ikey.chunks)
             ]
             self._group_key_pointers = None
         elif keep_chunked:
